@@ -34,6 +34,9 @@ def apply_op(agent, spec, op):
         ag.seed_all(op[1])
         ag.learn_once(agent, spec, op[1])
         return agent
+    if k == "act":
+        ag.act_real(agent, spec, op[1])
+        return agent
     if k == "mutate":
         return mutate(agent, op[1], op[2])
     if k == "clone":
@@ -51,8 +54,10 @@ def apply_op(agent, spec, op):
     raise ValueError(op)
 
 
-def history_strategy(max_ops, kinds=("learn", "mutate", "clone", "tournament"), mut_kinds=MUT_KINDS):
+def history_strategy(max_ops, kinds=("learn", "mutate", "clone", "tournament", "act"), mut_kinds=MUT_KINDS):
     ops = []
+    if "act" in kinds:
+        ops.append(st.tuples(st.just("act"), st.integers(0, 999)))
     if "learn" in kinds:
         ops.append(st.tuples(st.just("learn"), st.integers(0, 999)))
         ops.append(st.tuples(st.just("learn"), st.integers(0, 999)))
